@@ -29,14 +29,7 @@ func registerIntrinsics3(e *Engine) {
 		}
 	}
 	b2 := func(name string, f func(string, string) bool) {
-		I[name] = func(e *Engine, fr *frame, a []Value) Value {
-			if c, ok := a[0].(*ChoiceStr); ok {
-				if y, ok := a[1].(string); ok {
-					return e.liftStr(c, func(x string) Value { return f(x, y) })
-				}
-			}
-			return f(e.cs(a[0]), e.cs(a[1]))
-		}
+		I[name] = func(e *Engine, fr *frame, a []Value) Value { return e.liftBool2(a[0], a[1], f) }
 	}
 	i2 := func(name string, f func(string, string) int) {
 		I[name] = func(e *Engine, fr *frame, a []Value) Value {
@@ -58,6 +51,7 @@ func registerIntrinsics3(e *Engine) {
 	s2("strings.TrimLeft", strings.TrimLeft)
 	s2("strings.TrimRight", strings.TrimRight)
 	b2("strings.HasSuffix", strings.HasSuffix)
+	b2("strings.HasPrefix", strings.HasPrefix)
 	b2("strings.EqualFold", strings.EqualFold)
 	b2("strings.ContainsAny", strings.ContainsAny)
 	i2("strings.LastIndex", strings.LastIndex)
